@@ -223,8 +223,13 @@ class Builder:
     def cassign(self, name, op, e):
         return {"k": "cassign", "x": name, "d": self.resolve(name), "op": op, "e": e}
 
-    def lam(self, params, body_fn, name="lambda-0"):
-        """body_fn is called after the parameters are in scope and returns the body expression"""
+    def lam(self, params, body_fn, name=None):
+        """body_fn is called after the parameters are in scope and returns the body expression.
+        Lambdas are named lambda-N, N counting the lambdas compiled so far in the enclosing function."""
+        enclosing = self.funcs[-1]
+        n = enclosing.get("lamc", 0)
+        enclosing["lamc"] = n + 1
+        name = "lambda-%d" % n
         self.funcs.append({"scopes": [[]], "script": False})
         ps = [{"x": p, "d": self.declare(p)} for p in params]
         body = body_fn()
